@@ -291,6 +291,47 @@ def gen_separate_case(rng, tier):
             'separate': True}
 
 
+def _twopath_proc(role, ga, gb, q):
+    core.import_searchkit()
+    from searchkit.utils import MPCache
+    a, b = MPCache('cid', 'ctype', ga), MPCache('cid', 'ctype', gb)
+    try:
+        if role == 'writer':
+            a.set('k', 'a1')
+            b.set('k', 'b1')
+            b.bulk_set({'k2': 'b2'})
+            a.unset('nothing')
+            q.put('done')
+        else:
+            q.put({'B': [b.get('k'), b.get('k2')], 'A': [a.get('k'), a.get('k2')]})
+    except Exception as e:  # pylint: disable=broad-except
+        q.put({'err': type(e).__name__})
+    core.cov_save()
+
+
+def twopath_eval(_rng, _count, _extra):
+    """ the same cache id and type under TWO global paths used by one process: two independent
+    caches (another process reading either path sees exactly what was written under it) """
+    tmp = tempfile.mkdtemp(prefix='vh-')
+    ctx = multiprocessing.get_context('fork')
+    out = {}
+    try:
+        ga, gb = os.path.join(tmp, 'A'), os.path.join(tmp, 'B')
+        for role in ('writer', 'reader'):
+            q = ctx.Queue()
+            pr = ctx.Process(target=_twopath_proc, args=(role, ga, gb, q))
+            pr.start()
+            pr.join(60)
+            if pr.is_alive():
+                pr.kill()
+                out[role] = 'hang'
+            else:
+                out[role] = q.get(timeout=5) if not q.empty() else 'no answer'
+        return [out]
+    finally:
+        shutil.rmtree(tmp, ignore_errors=True)
+
+
 def eval_cases(rng, count, extra):
     fixed = extra.get('fixed')
     todo = fixed if fixed is not None else [None] * count
@@ -486,9 +527,16 @@ def run(tier, seed, replay_case=None):
     aud = core.audit(PROP)
     total = 60 if tier == 'quick' else 1500
     items = []
-    corpus = core.load_corpus(PROP) if replay_case is None else [replay_case]
+    two = replay_case is not None and replay_case.get('twopath')
+    corpus = core.load_corpus(PROP) if replay_case is None else ([] if two else [replay_case])
     if corpus:
         items += eval_cases(None, 0, {'fixed': corpus})
+    if two:
+        for o in core.run_sharded(twopath_eval, seed, 1, shards=1, workers=2):
+            want = {'B': ['b1', 'b2'], 'A': ['a1', None]}
+            if o.get('writer') != 'done' or o.get('reader') != want:
+                rep.fail('failing-input', {'twopath': True}, f"two global paths: read {o}; "
+                         f"expected {want}", impl=o, spec=want)
     if replay_case is None:
         items += core.run_sharded(eval_cases, seed, total, {'tier': tier},
                                   shards=min(core.NCPU, total), workers=6)
@@ -498,6 +546,15 @@ def run(tier, seed, replay_case=None):
         nsep = 4 if tier == 'quick' else 60
         items += core.run_sharded(eval_cases, seed + 2, nsep, {'tier': tier, 'separate': True},
                                   shards=min(4, nsep), workers=4)
+        for o in core.run_sharded(twopath_eval, seed, 1, shards=1, workers=2):
+            rep.evaluations += 1
+            rep.count('two_global_paths_histories')
+            want = {'B': ['b1', 'b2'], 'A': ['a1', None]}
+            if o.get('writer') != 'done' or o.get('reader') != want:
+                rep.fail('failing-input', {'twopath': True},
+                         "one process wrote k='a1' under global path A and k='b1', k2='b2' under "
+                         f"global path B (same cache id and type); another process then read {o}; "
+                         f"expected {want}", impl=o, spec=want)
         # known finding D14: keys named like another key's dbm file (one history per run)
         items += eval_cases(None, 0, {'fixed': [{
             'progs': [[['set', 0, 'v0'], ['get', 1], ['get', 0], ['set', 2, 'v1'], ['get', 0]]],
@@ -506,7 +563,8 @@ def run(tier, seed, replay_case=None):
     mobs = drv.run([model_case(it) for it in items])
     for it, mo in zip(items, mobs):
         judge(rep, it, mo)
-    others = [f for f in rep.failures if f['case'].get('names') != COLLIDING]
+    others = [f for f in rep.failures if f['case'].get('names') != COLLIDING
+              and not f['case'].get('twopath')]
     if replay_case is None and others and \
             not any(f['kind'] == 'failing-input' for f in others):
         # correspondence broke but no history contradicts the property yet: search for one
